@@ -80,6 +80,20 @@ def lint(project, source, filename=None, debug=False):
 
                 use_name(sname)
 
+    for name in scope._nonlocal_binds:
+        # an assignment under a nonlocal declaration is used when the
+        # variable is read anywhere in the function that owns it
+        _, owner = scope.closure_owner(name)
+        for usage in name_usages:
+            if usage.id != name.name or not hasattr(usage, 'flow'):
+                continue
+            s = usage.flow.scope
+            while s is not owner and s is not scope:
+                s = s.parent
+            if s is owner and s is not scope:
+                use_name(name)
+                break
+
     for flow, name in scope.all_names:
         w = 'W01'
         message = 'Unused name: {}'
